@@ -13,10 +13,18 @@
    strftime, strptime.  Proofs/StrftimeSpec.v: POSIX_SHAPES (the eleven
    directives in the package's own template language), SUPPORTED (its keys),
    supported_fmt / parse_fmt / full_fmt / date_dirs_ok / uses / stray_pct
-   (decidable conditions on a split format), unix_agrees, whole_second,
-   parsed_call, parsed_point, cfg_zone.
+   (decidable conditions on a split format), whole_second, parsed_call,
+   parsed_point, cfg_zone.
    STRFTIME_TABLE is regenerated from the package on every run; it enters the
-   theorems only through the closed vm_compute reflection C17_table. *)
+   theorems only through the closed vm_compute reflection C17_table.
+
+   What is partial.  strftime (C17_strftime) is stated at full strength for
+   all eleven directives, %s included: the package prints floor(seconds since
+   the epoch), which is POSIX time_t for every valid point, before the epoch
+   too.  The strptime theorems (5-7, suffix _partial) exclude formats
+   containing %s (the model answers EUnmodelled: the package parses that group
+   with float()) and speak of the canonical POSIX text only; 7 is stated for
+   whole-second points. *)
 From Coq Require Import ZArith QArith Qround List Bool String Ascii.
 From Iso Require Import Proofs.Tac Spec.Cal Spec.Instant Spec.NextMatch Spec.Posix
   Model.Num Model.Helpers Model.Duration Model.TimePoint Model.Forms Model.Parse Model.LocalZone
@@ -72,30 +80,17 @@ Print Assumptions C17_civil.
 (* 4. strftime prints the POSIX text.  Any valid point: calendar, ordinal or
       week date; hh:mm:ss, hh:mm,nn or hh,ii time (fractions allowed, %S prints
       the whole second); 24:00; any offset; any calendar mode; any number of
-      expanded year digits of the dumper.  Hypotheses: civil year in 0..9999,
-      every directive one of the eleven (otherwise C17_unsupported), no stray
-      '%' left in literal text (the model does not cover Python's %-formatting
-      of it), and -- only when %s occurs -- the instant is at/after the epoch or
-      a whole number of seconds from it (see C17_strftime_unix_refuted). *)
+      expanded year digits of the dumper; %s on either side of the epoch (the
+      package rounds down, as time_t does).  Hypotheses: civil year in
+      0..9999, every directive one of the eleven (otherwise C17_unsupported),
+      no stray '%' left in literal text (the model does not cover Python's
+      %-formatting of it). *)
 Theorem C17_strftime : forall ned md p fmt c,
   valid_tp md p = true -> civil_of md p = Some c -> 0 <= cy c <= 9999 ->
   supported_fmt (split_format fmt "") = true -> stray_pct (split_format fmt "") = false ->
-  (uses ["%s"] (split_format fmt "") = true -> unix_agrees md p) ->
   exists s, strftime ned STRFTIME_TABLE md p fmt = DOk s /\ posix c (split_format fmt "") = Some s.
 Proof. exact strftime_posix. Qed.
 Print Assumptions C17_strftime.
-
-(* the %s clause without its restriction is false of the model and of the
-   package (data.py seconds_since_unix_epoch: str(int(...)) truncates toward
-   zero): 1969-12-31T23:59:59,5Z prints "%S %s" as "59 0"; POSIX gives "59 -1" *)
-Theorem C17_strftime_unix_refuted :
-  valid_tp G p_before_epoch = true /\
-  strftime 2 STRFTIME_TABLE G p_before_epoch "%S %s" = DOk "59 0" /\
-  match civil_of G p_before_epoch with
-  | Some c => posix c (split_format "%S %s" "") = Some "59 -1"
-  | None => False end.
-Proof. exact strftime_unix_refuted. Qed.
-Print Assumptions C17_strftime_unix_refuted.
 
 (* 5. strptime on the POSIX text of ANY civil date-time with a year in
       0..9999, for ANY format made of the directives other than %s and of
@@ -151,7 +146,10 @@ Print Assumptions C17_strptime_partial.
    day of year, offset and Unix time; a 24:00 point in a negative offset
    printed as 00:00 of the next day and parsed back to an equal point; the two
    instance families are full formats; the hypotheses are satisfiable; the
-   defaulting rule on "%m-%d"; a stray '%' and an unsupported directive. *)
+   defaulting rule on "%m-%d"; a stray '%' and an unsupported directive; and
+   an instance a truncating %s (str(int(...)), "59 0") would fail: half a
+   second before the epoch, 1969-12-31T23:59:59,5Z (p_before_epoch), "%S %s"
+   is "59 -1", the POSIX text. *)
 Definition ex_week : tp := mkTp (Wk 2009 1 1) (HMS 0 0 0) (mkZone 0 0).
 Definition ex_24 : tp := mkTp (Cal 2008 12 31) (HMS 24 0 0) (mkZone (-5) (-30)).
 Example C17_ex :
@@ -178,5 +176,10 @@ Example C17_ex :
   supported_fmt (split_format "%FT%X%z (%j) %s" "") = true /\ stray_pct (split_format "%FT%X%z (%j) %s" "") = false /\
   strftime 2 STRFTIME_TABLE G ex_week "100%" = DUnmodelled /\
   strftime 2 STRFTIME_TABLE G ex_week "%y" = DSyntax /\
-  strftime 2 STRFTIME_TABLE G (mkTp (Cal 10000 1 1) (HMS 0 0 0) (mkZone 0 0)) "%Y" = DBounds.
+  strftime 2 STRFTIME_TABLE G (mkTp (Cal 10000 1 1) (HMS 0 0 0) (mkZone 0 0)) "%Y" = DBounds /\
+  p_before_epoch = mkTp (Cal 1969 12 31) (HMS 23 59 (119 # 2)) (mkZone 0 0) /\
+  valid_tp G p_before_epoch = true /\
+  strftime 2 STRFTIME_TABLE G p_before_epoch "%S %s" = DOk "59 -1" /\
+  (match civil_of G p_before_epoch with
+   | Some c => posix c (split_format "%S %s" "") | None => None end) = Some "59 -1".
 Proof. vm_compute. repeat split; reflexivity. Qed.
